@@ -112,7 +112,14 @@ var raceCmds = map[string]string{"h0": "pend", "h1": "pend", "h2": "pend", "h3":
 
 // genCmdRaceCase: lines, sets, simple options and commands of every shape (and <<wait n>>).
 func genCmdRaceCase(rnd *rand.Rand, id int) *Case {
-	c := &Case{ID: id, Family: "cmdrace", Funcs: defaultFuncs(), Cmds: raceCmds, Storer: "recording", Vars: []string{"x"}}
+	// a case uses either gated host handlers or the built-in wait, never both: the recorder then
+	// knows what kind of command is pending without guessing from timing
+	waitOnly := id%3 == 0
+	family := "cmdrace-gate"
+	if waitOnly {
+		family = "cmdrace-wait"
+	}
+	c := &Case{ID: id, Family: family, Funcs: defaultFuncs(), Cmds: raceCmds, Storer: "recording", Vars: []string{"x"}}
 	c.Nodes = []Node{{Title: "Start"}, {Title: "Beta"}}
 	lineNo := 0
 	line := func() Stmt {
@@ -120,7 +127,11 @@ func genCmdRaceCase(rnd *rand.Rand, id int) *Case {
 		return Stmt{K: "line", Text: []Part{{Lit: fmt.Sprintf("L%d x=", lineNo)}, {E: eVar("x")}}}
 	}
 	cmd := func() Stmt {
-		switch rnd.Intn(7) {
+		k := rnd.Intn(5)
+		if waitOnly {
+			k = 5
+		}
+		switch k {
 		case 0:
 			return Stmt{K: "cmd", Elems: []*Expr{eStr("h0")}}
 		case 1:
@@ -210,24 +221,25 @@ func driveCmdRace(ci int, c *Case, rnd *rand.Rand) []recEvent {
 	caseStart := time.Now()
 	ms := func(t time.Time) int { return int(t.Sub(caseStart) / time.Millisecond) }
 	const (
-		kUnknown = iota // a command is pending, not known yet whether a host handler was entered
+		kUnknown = iota // a host handler was dispatched but has not been entered yet
 		kHandler        // a gated host handler is running
-		kWait           // no handler was entered within 300 ms: the built-in wait
+		kWait           // the built-in wait
 	)
+	waitOnly := c.Family == "cmdrace-wait"
 	waiting, nopts := false, 0
 	pending, kind := false, kUnknown
 	released, releasedErr := false, false
 	dispatchIdx := -1 // event of the call that dispatched the pending command
 	var dispatchAt time.Time
 	polls := 0
-	for call := 0; call < 1500; call++ {
+	for call := 0; call < 8000; call++ {
 		if pending && kind == kUnknown {
 			select {
 			case <-g.started:
 				kind = kHandler
 			default:
-				if time.Since(dispatchAt) > 300*time.Millisecond {
-					kind = kWait
+				if time.Since(dispatchAt) > 20*time.Second {
+					kind = kWait // the handler was never entered: the run ends as "stuck"
 				}
 			}
 		}
@@ -269,6 +281,9 @@ func driveCmdRace(ci int, c *Case, rnd *rand.Rand) []recEvent {
 		switch {
 		case k == "waiting" && !pending: // this call dispatched a command
 			pending, kind, released, polls = true, kUnknown, false, 0
+			if waitOnly {
+				kind = kWait
+			}
 			dispatchIdx, dispatchAt = len(evs), t0
 			obs.Ccalls = calls
 		case k == "waiting": // a poll answered before completion was visible
@@ -303,7 +318,7 @@ func driveCmdRace(ci int, c *Case, rnd *rand.Rand) []recEvent {
 		case "end", "panic":
 			return evs
 		}
-		if polls > 1200 { // never resumes (about 5 s of polling)
+		if polls > 6000 { // never resumes (more than 20 s of polling)
 			obs2 := stepObs{Out: map[string]any{"k": "stuck"}, Writes: []writeRec{}, Fcalls: []callRec{}, Ccalls: []callRec{},
 				Vars: []Val{}, Visits: []int{}}
 			return append(evs, recEvent{Ev: "next", ID: c.ID, R: 1, In: &recIn{Done: true}, Obs: &obs2, T0: ms(t0), T1: ms(time.Now())})
